@@ -496,7 +496,8 @@ TBulk ==
     /\ viol' = viol \cup V(E.setup_ok => (/\ E.dups = 0 /\ E.foreign = 0 /\ E.terms = E.pieces
                                             /\ (E.err = "" => (E.missing = 0 /\ E.streamed = E.n))
                                             /\ (~E.iter_fault => E.err = "")),
-                             "BulkStreamExactlyOnce")
+                             \* (C07: the list after a compaction whose scan failed once and started over, having deleted a part)
+                             IF E.how = "list-after-faulty-compaction" THEN "CompactionRestartPreservesReads" ELSE "BulkStreamExactlyOnce")
     /\ UNCHANGED <<idx, ver, hv, floor, cm, base, pend, maxRet, seen, maxRev, evlog, ws, rds, prefixes, cmax, expiring, chg, ttl>>
 
 \* C04 once around the real write-result ring (100000 slots; KubeBrain.tla explores the wrap with 3): afterwards the
@@ -554,6 +555,7 @@ M_ResolvedAfterWrap     == NoViol("ResolvedAfterWrap")
 M_FailedReturnsCurrent  == NoViol("FailedReturnsCurrent")
 M_BulkStreamExactlyOnce == NoViol("BulkStreamExactlyOnce")
 M_WatchBulkExactlyOnce  == NoViol("WatchBulkExactlyOnce")
+M_CompactionRestartPreservesReads == NoViol("CompactionRestartPreservesReads")
 M_PartitionsTileInterval == NoViol("PartitionsTileInterval")
 M_ReadStable            == NoViol("ReadStable")
 M_RealTimeOrder         == NoViol("RealTimeOrder")
